@@ -1134,9 +1134,11 @@ class AuthRun(object):
         sim = self.sim
         had_open = 'open' in mod.__dict__
         old_open = mod.__dict__.get('open')
-        old_os = mod.os
+        old_os = getattr(mod, 'os', None)       # (a changed tree may take its random bytes from elsewhere)
         mod.open = self.fs_open
         mod.os = OsShim(self)
+        real_urandom = _real_os.urandom
+        _real_os.urandom = self.urandom             # the same seeded bytes for whoever asks the os module directly
         try:
             self.cfg = TorCfg(self)
             cfg = self.cfg
@@ -1169,7 +1171,11 @@ class AuthRun(object):
             sim.drain(max_steps=20000)
             self.check_final()
         finally:
-            mod.os = old_os
+            _real_os.urandom = real_urandom
+            if old_os is not None:
+                mod.os = old_os
+            else:
+                del mod.os
             if had_open:
                 mod.open = old_open
             else:
